@@ -82,6 +82,21 @@ def run(chk):
             yield (f'2.1:observables:x-vf-sco:x_d float {f!r}', C, {'x_d': {'f': f}})
         for f in (1.5e-05, 1.5e-04, 7.25, 1e21):
             yield (f'2.1:observables:file:pe section entropy {f!r}', stix2.v21.File, {'name': 'f', 'extensions': {'windows-pebinary-ext': {'pe_type': 'exe', 'sections': [{'name': 's', 'entropy': f}]}}})
+        # member names that sort differently by code point and by UTF-16 code unit (astral vs U+E000..U+FFFF), inside contributing extension content
+        EXTD = 'extension-definition--' + G.UUID2
+        for keys in (('\U00010000', '\ue000'), ('a\U0001f600', 'a\uffff', 'a\ud7ff'), ('\uff5e', '\U00010400z', 'z')):
+            yield ('2.1:observables:file:extension member names ' + '/'.join(f'U+{ord(k[-1] if len(k) > 1 and k[0] == "a" else k[0]):X}' for k in keys), stix2.v21.File,
+                   {'name': 'f', 'extensions': {EXTD: dict({'extension_type': 'property-extension'}, **{k: i for i, k in enumerate(keys)})}})
+        # the same contributing instant handed over as text, as a datetime and as a timestamp object taken from another object (other precision settings): one id
+        import datetime as dtm2
+        for text in ('2020-01-01T00:00:07Z', '2020-01-01T00:00:07.5Z', '2020-01-01T00:00:07.120Z', '2020-01-01T00:00:07.123456Z'):
+            donor21 = stix2.v21.Identity(name='n', created=text, modified=text); donor20 = stix2.v20.Identity(name='n', identity_class='individual', created=text, modified=text)
+            ind = stix2.v21.Indicator(pattern="[file:name = 'a']", pattern_type='stix', valid_from=text)
+            base = {'protocols': ['tcp'], 'src_ref': 'ipv4-addr--' + G.UUID, 'is_active': False}
+            for kind, v in (('text', text), ('datetime', stix2.utils.parse_into_datetime(text).replace()), ('timestamp object of a 2.1 created', donor21.created),
+                            ('timestamp object of a 2.0 created', donor20.created), ('timestamp object of a 2.1 valid_from', ind.valid_from)):
+                if kind == 'timestamp object of a 2.0 created' and text.endswith('456Z'): continue       # (2.0 created is truncated to the millisecond: another instant)
+                yield (f'2.1:observables:network-traffic:start {text} as {kind}', stix2.v21.NetworkTraffic, dict(base, start=v, end=v))
         for kw in ({'number': 0}, {'number': 10**21}, {'number': 1, 'name': 'n'}):
             yield ('2.1:observables:autonomous-system:number=' + str(kw['number']), stix2.v21.AutonomousSystem, kw)
         yield ('2.1:observables:network-traffic:src_port=0', stix2.v21.NetworkTraffic, {'protocols': ['tcp'], 'src_ref': 'ipv4-addr--' + G.UUID, 'src_port': 0})
@@ -90,7 +105,7 @@ def run(chk):
 
     def check(case):
         label, cls, kw = case
-        try: o = cls(**copy.deepcopy(kw))
+        try: o = cls(**(dict(kw) if ' as timestamp object' in label else copy.deepcopy(kw)))
         except Exception: return None
         d = json.loads(o.serialize())
         contributing = list(cls._id_contributing_properties)
@@ -131,6 +146,15 @@ def run(chk):
         d = json.loads(o.serialize()); contributing = list(cls._id_contributing_properties)
         key = canon({k: (d[k] if k != 'hashes' else {next((h for h in HASH_ORDER if h in d[k]), None) or next(iter(d[k])): 1} and d[k]) for k in contributing if k in d}) if any(k in d for k in contributing) else None
         if key is not None: by_type.setdefault(d['type'], {}).setdefault(d['id'], set()).add(spec_id(d, contributing))
+    # equal contributing values, whatever kind of value carried them: one id
+    groups = {}
+    for label, cls, kw in cc:
+        if ':start ' in label and ' as ' in label:
+            try: groups.setdefault(label.split(' as ')[0], []).append((label, cls(**dict(kw))['id']))        # (no deep copy here: copying a timestamp object resets its precision settings)
+            except Exception as ex: chk.violation('determinism#value kinds accepted', f'{label}: {type(ex).__name__}: {ex}', {})
+    for g, members in groups.items():
+        if len({i for _, i in members}) > 1:
+            chk.violation('determinism#same instant, other value kind', f'{g}: ids differ across value kinds: {[(l.split(" as ")[1], i[-12:]) for l, i in members]}', {'group': g})
     # ---- history: identifiers stay deterministic and the contributing lists stay what they were after versioning operations on observables
     # (new_version / revoke on a versionable SCO given as object and as dictionary -- refused or not --, deepcopy, serialization, store round trip)
     import stix2.versioning as V
